@@ -196,5 +196,21 @@ PLANS = {
         assumptions=['state identity is compared by name, result codes by class (zero / handled bit / other)',
                      'a configuration that cannot compile a declaration is not compared for that machine (recorded)'],
     ),
+    'C14': dict(
+        custom='c14_run', oracle='C14', level='exploration', profiles=[('frontlang', 3), ('frontlang2', 2)], configs=[1, 4, 5], cp=dict(max_ops=20, kinds=['P']),
+        examples=(200, 1500),
+        rule='Three sub-checks. (1) Front-end differential: generated flat machines (1-3 regions, conflicts, composite guards over '
+             'logging atoms, action sequences of 0-3, internal and anonymous rows, flags, terminate states) are emitted with functor '
+             'rows, with basic rows (row/a_row/g_row/_row/irow family, every third row through the row2 family) and as a PlantUML '
+             'string in two renderings (canonical; other arrow lengths, padding and action/guard order), compiled on back, back11 and '
+             'backmp11; the same generated case must give the same trace on every variant and equal the model. (2) PlantUML tokenizer: '
+             'libFuzzer + ASan/UBSan target decodes bytes into documents of the documented line grammar and checks the round trip and '
+             're-styling invariance of parse_row/parse_stt/parse_inits/parse_action/count_* at run time. (3) PlantUML guard parser: '
+             'random guard strings (atoms, !, &&, ||, one level of parentheses) parsed at compile time are evaluated over all 32 '
+             'valuations and compared, including the order of atom evaluations, with the same text compiled as a C++ expression. '
+             'Non-trivial = (1) a step with a composite guard or an action sequence, (2) a row with >= 2 optional parts, (3) an '
+             'expression with >= 2 operator kinds or parentheses.',
+        assumptions=['the eUML front-end is not covered by this revision', 'state-local internal tables are compared between functor and basic only (PlantUML cannot express them)'],
+    ),
 }
 NOT_YET = {}
